@@ -55,9 +55,7 @@ def _one(args):
         uname, specs = signature_universes()[idx]
         max_script, max_nest = 1, 0
     else:
-        uname, specs = sm.universes(tier, base)[idx]
-        max_script = 1 if tier == "quick" else 2
-        max_nest = 1 if tier == "quick" else 2
+        uname, specs, max_script, max_nest = sm.universes(tier, base)[idx]
     world, it0 = sm.make_world(program, specs, base, sm.configure)
     mon = sm.SMMonitor(specs, base)
     acts = sm.sm_actions(specs, base)
